@@ -135,7 +135,7 @@ macro_rules! float_suite {
         let r = mon.n(3_000, 300_000);
         type S = $S;
         const N: usize = $N;
-        let v = |a: [S; N]| <$T>::from_array(a);
+        let v = |a: [S; N]| <$T as crate::elem::MkLanes<S, N>>::mk(a);
 
         // --- arithmetic operators, all forms -----------------------------------
         macro_rules! arith {
@@ -321,7 +321,7 @@ fn rounding_sweep(mon: &mut Monitor) {
                     for k in 0..$N {
                         a[k] = f32::from_bits(((bits + k as u64 * stride) & 0xffff_ffff) as u32);
                     }
-                    let got = <$T>::from_array(a).$op().to_array();
+                    let got = <$T as crate::elem::MkLanes<f32, $N>>::mk(a).$op().to_array();
                     for k in 0..$N {
                         let e = a[k].$prim();
                         if !ieq(got[k], e) {
